@@ -103,3 +103,95 @@ fn count_pred_all_bytes() {
     let r = &b;
     assert!(count_pred(&r, f) == (b != b'-' && (!f || !spec_ambig(b))));
 }
+
+// BOUNDED (rows of length <= 3): one iteration of filter()'s row loop, lifted whole.  A row is kept exactly when its
+// stored count reaches the threshold AND it passes the site filter; a kept row is appended (in order) together with
+// its count and, if update_kmers, its k-mer; anything else increments `removed` and appends nothing.
+fn spec_keep(ft: u8, row: &Vec<u8>, igc: bool) -> bool {
+    // distinct eligible symbols / ambiguity / weighted distinct symbols, as in the property
+    let n = row.len();
+    let mut two_distinct = false;
+    let mut any_ambig = false;
+    let mut weight = 0;
+    let mut i = 0;
+    while i < n {
+        if spec_ambig(row[i]) {
+            any_ambig = true;
+        }
+        let mut first = true;
+        let mut j = 0;
+        while j < n {
+            if (!igc || row[i] != b'-') && (!igc || row[j] != b'-') && row[i] != row[j] {
+                two_distinct = true;
+            }
+            if j < i && row[j] == row[i] {
+                first = false;
+            }
+            j += 1;
+        }
+        let l = row[i] | 0x20;
+        if first && (l == b'a' || l == b'c' || l == b'g' || l == b't' || l == b'u' || (l == b'-' && !igc)) {
+            weight += 1;
+        }
+        i += 1;
+    }
+    match ft {
+        0 => true,
+        1 => two_distinct,
+        2 => !any_ambig,
+        _ => weight > 1,
+    }
+}
+
+#[kani::proof]
+#[kani::unwind(6)]
+fn bounded_filter_row_step_len3() {
+    let n: usize = kani::any();
+    kani::assume(n <= 3);
+    let cells = [any_sym(), any_sym(), any_sym()];
+    let mut row: Vec<u8> = Vec::new();
+    let mut i = 0;
+    while i < n {
+        row.push(cells[i]);
+        i += 1;
+    }
+    let count: usize = kani::any();
+    let min_count: usize = kani::any();
+    kani::assume(count <= 4 && min_count <= 4);
+    let kmer: u64 = kani::any();
+    let igc: bool = kani::any();
+    let upd: bool = kani::any();
+    let ftc: u8 = kani::any();
+    kani::assume(ftc < 4);
+    let ft = match ftc {
+        0 => FilterType::NoFilter,
+        1 => FilterType::NoConst,
+        2 => FilterType::NoAmbig,
+        _ => FilterType::NoAmbigOrConst,
+    };
+    let removed0: i32 = kani::any();
+    kani::assume(removed0 >= 0 && removed0 < 1000);
+    let (fv, fc, fk, removed) = filter_row_step(((&count, &row), &kmer), min_count, &ft, igc, upd,
+        RowsShim { rows: Vec::new() }, Vec::new(), Vec::new(), removed0);
+    let keep = count >= min_count && spec_keep(ftc, &row, igc);
+    if keep {
+        assert!(removed == removed0);
+        assert!(fv.rows.len() == 1 && fc.len() == 1);
+        assert!(fc[0] == count);
+        assert!(fv.rows[0].len() == n);
+        let mut j = 0;
+        while j < n {
+            assert!(fv.rows[0][j] == row[j]);
+            j += 1;
+        }
+        assert!(fk.len() == if upd { 1 } else { 0 });
+        if upd {
+            assert!(fk[0] == kmer);
+        }
+    } else {
+        assert!(removed == removed0 + 1);
+        assert!(fv.rows.len() == 0 && fc.len() == 0 && fk.len() == 0);
+    }
+    kani::cover!(keep && ftc == 3);
+    kani::cover!(!keep && count >= min_count);
+}
